@@ -1,8 +1,11 @@
 import Rustic.Model.RoundTrip
+import Rustic.Model.Snapshot
 import Rustic.Gen.Constants
 import Driver.Util
 import Driver.C06
-/-! `c01 <esc|unesc|start|coalesce|e2e> …` — see harness/src/c01.rs. -/
+import Driver.C01Ixr
+import Driver.C01Time
+/-! `c01 <esc|unesc|start|coalesce|link|big|e2e|e2el> …` — see harness/src/c01.rs. -/
 namespace Driver.C01
 open Rustic.RoundTrip Driver
 
@@ -94,16 +97,55 @@ def chunkLens (cfg : List String) (bs : List UInt8) : Option (List Nat) := do
     pure (Driver.C06.collect (Rustic.Rabin.roll t) p st [])
   else none
 
-def entryObs (cfg : List String) (tok : String) : Option String :=
+/-- `gf=<n>`, `nr=<n>`, `ro=<n>`, `as=<0|1>`, `rd=<0|1>`, `hl=<0|1>`: options between the configuration and the entries -/
+def isOpt (t : String) : Bool := t.contains '=' && !(t.contains ':')
+
+def optOk (t : String) : Bool :=
+  match t.splitOn "=" with
+  | [k, v] => (k = "gf" || k = "nr" || k = "ro" || ((k = "as" || k = "rd" || k = "hl") && (v = "0" || v = "1"))) && v.toNat?.isSome
+  | _ => false
+
+def fileObs (cfg : List String) (p k l s : String) : Option String := do
+  let len ← l.toNat?
+  let bs ← content k len (← s.toNat?)
+  let lens ← chunkLens cfg bs
+  pure s!"{p}:f:{len}:{if lens.isEmpty then "-" else ",".intercalate (lens.map toString)}"
+
+/-- the `F` entry a further name (`H`) refers to -/
+def findFile (ents : List String) (path : String) : Option (String × String × String) :=
+  ents.findSome? fun t =>
+    match t.splitOn ":" with
+    | "F" :: q :: k :: l :: s :: _ => if q = path then some (k, l, s) else none
+    | _ => none
+
+def entryObs (cfg : List String) (ents : List String) (tok : String) : Option String :=
   match tok.splitOn ":" with
-  | ["F", p, k, l, s, _mode, _mtime] => do
-    let len ← l.toNat?
-    let bs ← content k len (← s.toNat?)
-    let lens ← chunkLens cfg bs
-    pure s!"{p}:f:{len}:{if lens.isEmpty then "-" else ",".intercalate (lens.map toString)}"
+  | ["F", p, k, l, s, _mode, _mtime] => fileObs cfg p k l s
+  | ["F", p, k, l, s, _mode, _mtime, x] => do
+    let _ ← x.toNat?
+    fileObs cfg p k l s
+  | ["H", p, target] => do
+    let (k, l, s) ← findFile ents target
+    fileObs cfg p k l s
+  | ["T", p, _dir, _mode, _mtime] => some s!"{p}:t"
   | ["D", p, _, _] => some s!"{p}:d"
   | ["L", p, _, _] => some s!"{p}:l"
   | _ => none
+
+/-- `e2e` / `e2el`: per entry the kind and, for files, the chunk lengths the chunker model gives for the regenerated content -/
+def e2eObs (rest : List String) : String :=
+  if rest.length < 10 then "bad-op" else
+  let cfg := rest.take 8
+  let body := (rest.drop 8).dropLast
+  let opts := body.takeWhile isOpt
+  let ents := body.dropWhile isOpt
+  if !(opts.all optOk) || ents.isEmpty || rest.getLast?.bind String.toNat? = none then "bad-op" else
+  match ents.mapM (entryObs cfg ents) with
+  | none => "bad-op"
+  | some obs => "ok " ++ " ".intercalate obs
+
+/-- strings as the real code makes them: std's cutting, the UTF-8 encoder; the lossy string is not modelled -/
+def strOf : Rustic.Snapshot.Str := { cut := fun bs => decode bs #[], enc := utf8, lossy := fun _ => [] }
 
 def handle : List String → String
   | ["esc", name] =>
@@ -142,13 +184,32 @@ def handle : List String → String
     | some ls =>
       let gs := coalesceAll Rustic.Gen.C01_MAX_HOLESIZE Rustic.Gen.C01_LIMIT_PACK_READ ls
       "ok " ++ " ".intercalate (gs.map fun g => s!"{g.offset}:{g.length}:{g.blobs.length}")
-  | "e2e" :: rest =>
-    if rest.length < 10 then "bad-op" else
-    let cfg := rest.take 8
-    let ents := (rest.drop 8).dropLast
-    match ents.mapM (entryObs cfg) with
+  | ["link", t] =>
+    match unhex t with
     | none => "bad-op"
-    | some obs => "ok " ++ " ".intercalate obs
+    | some bs =>
+      match Rustic.Snapshot.fromLink strOf bs with
+      | .symlink l raw =>
+        let stored := match raw with
+          | none => hex (l.flatMap utf8)
+          | some _ => "-"
+        s!"ok {if raw.isSome then 1 else 0} {hex (raw.getD (l.flatMap utf8))} {stored}"
+      | _ => "bad-op"
+  | "big" :: rest =>
+    -- pure oracle op on the real code; the model side says how many files and chunks the tokens describe
+    if rest.length ≠ 11 then "bad-op" else
+    let cfg := rest.take 8
+    match rest[8]?, (rest[9]?).bind String.toNat?, (rest[10]?).bind String.toNat?, (cfgVal cfg "avg").bind String.toNat? with
+    | some shape, some n, some seed, some avg =>
+      if cfgVal cfg "chunker" ≠ some "fixed" || avg < 8 || avg > 4096 || n > 400000 then "bad-op"
+      else if shape = "files" then s!"ok files {1 + seed % 3} chunks {n}"
+      else if shape = "dirs" then s!"ok dirs {n} chunks {n}"
+      else "bad-op"
+    | _, _, _, _ => "bad-op"
+  | "e2e" :: rest => e2eObs rest
+  | "e2el" :: rest => e2eObs rest
+  | "ixr" :: rest => Driver.C01Ixr.handle rest
+  | "time" :: rest => Driver.C01Time.handle rest
   | _ => "bad-op"
 
 end Driver.C01
